@@ -192,6 +192,7 @@ def assemble_unit(unit, src):
     b.add(segs)
     b.add_text('} // verus!\n', 'glue')
     done = set()
+    bcast = []
     for u in [load_unit(d) for d in unit.DEPS] + [unit]:
         for sp in u.SPECS:
             if sp in done:
@@ -207,7 +208,19 @@ def assemble_unit(unit, src):
                     uses = ''.join(l + '\n' for l in hdr.splitlines() if l.startswith('use '))
                     nm = 's_' + sp.replace('.rs', '')
                     body = 'pub mod %s {\n%suse super::*;\n%s}\npub use %s::*;\n' % (nm, uses, body, nm)
+                if not body.startswith('pub mod s_'):
+                    # Verus allows one module-level `broadcast use` per module: collect them from all spec files
+                    def grab(m):
+                        bcast.extend(x.strip() for x in m.group(1).replace('\n', ' ').split(',') if x.strip())
+                        return ''
+                    body = re.sub(r'^broadcast use ([^;]*);', grab, body, flags=re.M)
                 b.add_text(body, 'spec')
+    if bcast:
+        uniq = []
+        for x in bcast:
+            if x not in uniq:
+                uniq.append(x)
+        b.add_text('verus! { broadcast use %s; }\n' % ', '.join(uniq), 'spec')
     b.add_text('fn main() {}\n', 'glue')
     metas += [dict(x, unit=unit.NAME) for x in m]
     return b, metas
